@@ -76,6 +76,16 @@ PolyBdClause(t) ==
         edgeOf(p) == CHOOSE k \in DOMAIN edges : near(p, k) /\ \A k2 \in DOMAIN edges : near(p, k2) => k <= k2
         cnt(k) == Cardinality({i \in DOMAIN t.pts : edgeOf(t.pts[i]) = k})
     IN IF \E k \in DOMAIN edges : ~BinomOK(cnt(k), t.N, lens[k] \div 16, tot \div 16, 1) THEN "uniform-on-polygon-boundary" ELSE "ok"
+\* union A + B: the number of points in A is binomial with the share mass(A) / mass(A + B) (masses by a 128 x 128 lattice over
+\* the window, slack of 48 lattice points for the outline); the points are logged at 1/1024, homogeneous weight 4
+FineLat == {-1016 + 16 * i : i \in 0..126}
+ShareClause(t) ==
+    LET e == E(t)
+        Qp(p) == [val |-> [nm \in (DOMAIN t.prm) \cup {"x"} |-> IF nm = "x" THEN <<p[1], p[2]>> ELSE <<t.prm[nm] * 4>>], w |-> 4]
+        cntA == Cardinality({i \in DOMAIN t.pts : In(e.l, Qp(t.pts[i]))})
+        mA == Cardinality({p \in FineLat \X FineLat : In(e.l, QXY(t, p[1], p[2]))})
+        mU == Cardinality({p \in FineLat \X FineLat : In(e, QXY(t, p[1], p[2]))})
+    IN IF mU = 0 THEN "skip" ELSE IF ~BinomOK(cntA, t.N, mA, mU, 48) THEN "uniform-share-of-first-operand" ELSE "ok"
 Check(t) ==
     IF "driver_error" \in DOMAIN t THEN <<"driver-error", "", 0>>
     ELSE IF t.exc # "" THEN <<"sampling-failed:" \o t.exc, "", 0>>
@@ -88,6 +98,7 @@ Check(t) ==
                     [] s.check = "lhs" -> LhsClause(t)
                     [] s.check = "circlebd" -> CircleBdClause(t)
                     [] s.check = "polybd" -> PolyBdClause(t)
+                    [] s.check = "share" -> ShareClause(t)
          IN <<IF c = "skip" THEN "ok" ELSE c, "", IF c = "skip" THEN 0 ELSE 1>>
 Init == tid \in 1..Len(Traces) /\ LET r == Check(Traces[tid]) IN verdict = r[1] /\ dev = r[2] /\ judged = r[3]
 Next == FALSE /\ UNCHANGED <<tid, verdict, dev, judged>>
